@@ -75,3 +75,62 @@ print(json.dumps({"first": f1, "after_reassignment": f2, "expected_after": 5.0 *
     r = json.loads(out.strip().splitlines()[-1])
     return {"reproduced": abs(r["after_reassignment"] - r["expected_after"]) > 1e-12, "real_code": r,
             "history": "set NAC parameters (factor 2), read nac_factor, set NAC parameters again (factor 5), read nac_factor"}
+
+
+def nac_params_not_modified(run):
+    """DynamicalMatrixGL._set_nac_params / DynamicalMatrixWang._set_nac_params: the dictionary handed in by the caller
+    (Phonopy passes its own _nac_params, or the user's dict when is_symmetry=False) is only read."""
+    mod = pyexec.load(DF)
+    n_total = 0
+    for cls in ("DynamicalMatrixGL", "DynamicalMatrixWang"):
+        m = mod.method(cls, "_set_nac_params")
+        pref = DF + ":%s._set_nac_params" % cls
+        st = PState()
+        arg = Opaque("NAC parameter dictionary of the caller")
+        self_ref = st.new(Record(cls, {"_pcell": st.new(Record("Primitive", {"volume": z3.Real("volume")})), "_num_G_points": z3.Int("num_G_points"),
+                                       "_dielectric": Opaque("dielectric")}))
+        st.pc.append(z3.Real("volume") > 0)
+        st.pc.append(PI > 0)
+        clog = z3.Function("c_log", z3.RealSort(), z3.RealSort())
+        st.pc.append(clog(z3.RealVal("1/10000000000")) < 0)            # log(1e-10) < 0 (A-LIBM: log x < 0 for 0 < x < 1)
+        hooks = {"%s._get_G_list" % cls: lambda ex, st_, a, k: Opaque("G list"), "DynamicalMatrixNAC._set_basic_nac_params": lambda ex, st_, a, k: None,
+                 "%s._set_basic_nac_params" % cls: lambda ex, st_, a, k: None}
+        ex = PyExec(mod, run.sink, pref, hooks=hooks, opaque_unknown=True, split=True)
+        n0 = len(run.sink.obls)
+        outs = ex.call_function(st, m, [arg], self_ref=self_ref, cls=cls)
+        nret = 0
+        for (s2, fl, v) in outs:
+            if fl != "return":
+                continue
+            nret += 1
+            hits = sorted({str(ln) for (b, ln) in s2.writes if b == arg.buf})
+            run.sink.add(pref, "ownership", list(s2.pc), z3.BoolVal(not hits), replay=(lambda model, c=cls: replay_nac_dict(c)),
+                         meta={"label": "the caller's NAC parameter dictionary is not written" + (" (written at line(s) %s)" % ", ".join(hits) if hits else "")})
+        if nret == 0:
+            raise CheckerError("%s._set_nac_params: no returning path" % cls)
+        n_total += len(run.sink.obls) - n0
+        run.functions.append({"file": DF, "function": "%s._set_nac_params" % cls, "line": m.lineno, "sha1": mod.sha(m), "obligations": len(run.sink.obls) - n0})
+
+
+def replay_nac_dict(cls):
+    from pvc import creplay
+    import json
+    code = r'''
+import json
+import numpy as np
+import phonopy.harmonic.dynamical_matrix as dmm
+C = getattr(dmm, CLS)
+class P: volume = 40.0
+o = C.__new__(C)
+o._pcell = P(); o._num_G_points = 300; o._log_level = 0
+o._get_G_list = lambda *a, **k: np.zeros((1, 3))
+p = {"born": np.zeros((2, 3, 3)), "dielectric": np.eye(3), "factor": 14.4}
+keys = sorted(p)
+o._set_nac_params(p)
+print(json.dumps({"keys_before": keys, "keys_after": sorted(p)}))
+'''.replace("CLS", repr(cls))
+    rc, out, err = creplay.py_eval(code)
+    if rc != 0:
+        return {"reproduced": False, "reason": err[-400:]}
+    r = json.loads(out.strip().splitlines()[-1])
+    return {"reproduced": r["keys_before"] != r["keys_after"], "real_code": r, "expected": "the dictionary passed in is unchanged"}
